@@ -60,6 +60,9 @@ type Ctx struct {
 func goEnv() []string {
 	env := []string{}
 	for _, e := range os.Environ() {
+		if buildGOOS != "" && (strings.HasPrefix(e, "GOOS=") || strings.HasPrefix(e, "GOARCH=") || strings.HasPrefix(e, "CGO_ENABLED=")) {
+			continue
+		}
 		if strings.HasPrefix(e, "GOFLAGS=") || strings.HasPrefix(e, "GOWORK=") ||
 			strings.HasPrefix(e, "GOPROXY=") || strings.HasPrefix(e, "GOSUMDB=") ||
 			strings.HasPrefix(e, "GOTOOLCHAIN=") {
@@ -67,8 +70,20 @@ func goEnv() []string {
 		}
 		env = append(env, e)
 	}
-	return append(env, "GOFLAGS=-mod=mod", "GOPROXY=off", "GOSUMDB=off", "GOTOOLCHAIN=local", "GOWORK=off")
+	env = append(env, "GOFLAGS=-mod=mod", "GOPROXY=off", "GOSUMDB=off", "GOTOOLCHAIN=local", "GOWORK=off")
+	if buildGOOS != "" {
+		env = append(env, "GOOS="+buildGOOS, "GOARCH="+buildGOARCH, "CGO_ENABLED=0")
+	}
+	return env
 }
+
+// buildGOOS / buildGOARCH select the build configuration the tree is loaded under
+// (empty: the host's). The thorough tier repeats the analysis for every entry of
+// thoroughConfigs, so that files and constant values that exist only under another
+// GOOS / GOARCH (build constraints, 32-bit int) are covered as well.
+var buildGOOS, buildGOARCH string
+
+var thoroughConfigs = [][2]string{{"linux", "386"}, {"windows", "amd64"}, {"darwin", "arm64"}}
 
 // loadPatterns are the packages of llir/llvm the checks cover. cmd/ and tools/
 // are generators and demos that are not part of the library's behaviour.
